@@ -4,6 +4,7 @@ import (
 	"context"
 	"fmt"
 	"strings"
+	"unicode"
 
 	"github.com/ozontech/seq-db/frac/lids"
 	"github.com/ozontech/seq-db/frac/processor"
@@ -81,10 +82,20 @@ func (f *sIndex) GetLIDsFromTIDs(tids []uint32, _ lids.Counter, minLID, maxLID u
 	return nodes
 }
 
-var sIndexCache = map[int]*sIndex{}
+var sIndexCache = map[string]*sIndex{}
 
-func indexFor(k int) *sIndex {
-	if f, ok := sIndexCache[k]; ok {
+// lowerRunes is the index side's case rule: unicode.ToLower rune by rune (tokenizer.toLowerTryInplace, proved in C11)
+func lowerRunes(s string) string {
+	rs := []rune(s)
+	for i, r := range rs {
+		rs[i] = unicode.ToLower(r)
+	}
+	return string(rs)
+}
+
+func indexFor(k int, cs bool) *sIndex {
+	key := fmt.Sprintf("%d/%v", k, cs)
+	if f, ok := sIndexCache[key]; ok {
 		return f
 	}
 	u := 1 << k
@@ -101,20 +112,26 @@ func indexFor(k int) *sIndex {
 				}
 			}
 			f.toks = append(f.toks, sTok{field, fmt.Sprintf("v%d", a), ls})
-			if field == "ft" {
-				for _, d := range decos {
-					f.toks = append(f.toks, sTok{field, fmt.Sprintf("v%s%d", d, a), ls})
+			for _, d := range append(append([]string(nil), decos...), casedDecos...) {
+				w := fmt.Sprintf("v%s%d", d, a)
+				if !cs {
+					w = lowerRunes(w) // what the tokenizers index unless case sensitivity is configured
 				}
+				f.toks = append(f.toks, sTok{field, w, ls})
+			}
+			if field == "fk" {
+				// the builtin existence tokens: field names as they are, whatever the case configuration
+				f.toks = append(f.toks, sTok{"_exists_", fmt.Sprintf("V%d", a), ls})
 			}
 		}
 	}
-	sIndexCache[k] = f
+	sIndexCache[key] = f
 	return f
 }
 
 // searchTable runs the parsed query through processor.IndexSearch on the fake index and returns the truth table.
-func searchTable(root *parser.ASTNode, k int, order seq.DocsOrder) (string, error) {
-	f := indexFor(k)
+func searchTable(root *parser.ASTNode, k int, cs bool, order seq.DocsOrder) (string, error) {
+	f := indexFor(k, cs)
 	u := 1 << k
 	qpr, err := processor.IndexSearch(context.Background(), processor.SearchParams{AST: root, From: 0, To: seq.MID(1 << 40), Limit: u + 5, WithTotal: true, Order: order},
 		f, processor.AggLimits{}, stopwatch.New())
@@ -133,4 +150,29 @@ func searchTable(root *parser.ASTNode, k int, order seq.DocsOrder) (string, erro
 		return "", fmt.Errorf("total %d for %d ids", qpr.Total, strings.Count(string(b), "1"))
 	}
 	return string(b), nil
+}
+
+// foreignLeaf returns the first exact (single text term) literal of the tree whose (field, value) is not a token of the
+// fake index, as "field:value", or "".
+func foreignLeaf(n *parser.ASTNode, k int, cs bool) string {
+	if n == nil {
+		return ""
+	}
+	if lit, ok := n.Value.(*parser.Literal); ok {
+		if len(lit.Terms) == 1 && lit.Terms[0].Kind == parser.TermText {
+			for _, t := range indexFor(k, cs).toks {
+				if t.field == lit.Field && t.val == lit.Terms[0].Data {
+					return ""
+				}
+			}
+			return fmt.Sprintf("%s:%q", lit.Field, lit.Terms[0].Data)
+		}
+		return ""
+	}
+	for _, ch := range n.Children {
+		if m := foreignLeaf(ch, k, cs); m != "" {
+			return m
+		}
+	}
+	return ""
 }
